@@ -1,6 +1,108 @@
-(* C09 -- placeholder while the pipeline is brought up *)
-From Verif Require Import Lib.Base Lib.Sx Model.Flv.
+(* C09 -- FLV files written are read back identically and follow the FLV layout.
+   Property theorems only; every proof is `exact <lemma>` or a short composition.
+
+   Vocabulary (Model/Flv.v): a [stream] is the io.Reader given to the demuxer, a list of
+   segments [Data bytes] / [Fault e]; [flat s = (d, t)] are the bytes it delivers and how it
+   ends (eEOF = io.EOF, or the fault).  [demux fuel s] is ReadHeader followed by the
+   ReadTagHeader/ReadTag loop until the first error; it yields the header (version, hasVideo,
+   hasAudio), the tags (type, timestamp, body) and (which call failed, its error).
+   [mux hv ha tags] are the bytes WriteHeader + WriteTag... hand to the io.Writer.
+   [wf_tag t]: type < 2^8, timestamp < 2^32 (the Go parameter types) and body < 2^24 bytes. *)
+From Verif Require Import Lib.Base Lib.Sx Model.Flv Proofs.Flv Proofs.FlvTotal.
 Open Scope N_scope.
-Theorem c09_smoke : mux true true [] = flv_v1_spec true true [].
-Proof. reflexivity. Qed.
-Print Assumptions c09_smoke.
+
+(* Round trip: any header flags, any list of tags, any reader segmentation and either way of
+   ending (EOF or an I/O fault behind the last byte): the demuxer returns version 1, the
+   flags, and exactly the tags written, in order, and its loop stops in ReadTagHeader with
+   the stream's end.  (fuel only bounds the model's loop; any value above the tag count.) *)
+Theorem c09_roundtrip hv ha tags fuel s tm :
+  Forall wf_tag tags -> (length tags < fuel)%nat ->
+  flat s = (mux hv ha tags, tm) ->
+  demux fuel s = Ok ((1, hv, ha), tags, (0, tm)).
+Proof. exact (demux_mux hv ha tags fuel s tm). Qed.
+
+(* ... and the tags are read back also when more data follows them: the loop state after the
+   written tags is the one of a reader positioned at the trailing bytes *)
+Theorem c09_roundtrip_trailing tags fuel s acc rest tm :
+  Forall wf_tag tags -> flat s = (concat (map tag_bytes tags) ++ rest, tm) ->
+  exists s', flat s' = (rest, tm) /\
+    read_tags (length tags + fuel) s acc = read_tags fuel s' (rev tags ++ acc).
+Proof. exact (read_tags_mux tags fuel s acc rest tm). Qed.
+
+(* Layout: the bytes written are exactly the FLV version 1 layout produced by the independent
+   writer [flv_v1_spec] (signature "FLV", version 1, flags, DataOffset 9, PreviousTagSize0 0;
+   per tag: type, 24-bit size, 24+8-bit timestamp, StreamID 0, body, PreviousTagSize 11+size) *)
+Theorem c09_layout hv ha tags : Forall wf_tag tags -> mux hv ha tags = flv_v1_spec hv ha tags.
+Proof. exact (mux_is_spec hv ha tags). Qed.
+
+(* Files produced by the independent writer are demuxed to the same tags *)
+Theorem c09_spec_read hv ha tags fuel s tm :
+  Forall wf_tag tags -> (length tags < fuel)%nat ->
+  flat s = (flv_v1_spec hv ha tags, tm) ->
+  demux fuel s = Ok ((1, hv, ha), tags, (0, tm)).
+Proof. exact (demux_spec hv ha tags fuel s tm). Qed.
+
+(* Segmentation independence for EVERY input (not only well-formed files): two readers that
+   deliver the same bytes and end the same way give the same demuxer result *)
+Theorem c09_segmentation fuel s1 s2 : flat s1 = flat s2 -> demux fuel s1 = demux fuel s2.
+Proof. exact (demux_seg fuel s1 s2). Qed.
+
+(* the muxer writes bytes *)
+Theorem c09_mux_bytes hv ha tags :
+  Forall (fun t => wf_bytes (t_body t)) tags -> wf_bytes (mux hv ha tags).
+Proof. exact (mux_wf hv ha tags). Qed.
+
+(* No panic on any input: every stream delivering bytes, every fuel *)
+Theorem flv_demux_total fuel s x : wf_stream s -> demux fuel s <> Panic x.
+Proof. exact (demux_total fuel s x). Qed.
+
+(* ... the loop returns: fuel above the number of delivered bytes is never exhausted *)
+Theorem c09_demux_returns fuel s acc e :
+  (length (fst (flat s)) < fuel)%nat -> read_tags fuel s acc <> Err e.
+Proof. exact (read_tags_fuel fuel s acc e). Qed.
+
+(* ReadTag(n) alone: no panic while n + 4 fits a uint32 ... *)
+Theorem c09_readtag_total n s x : n + 4 < 4294967296 -> read_tag n s <> Panic x.
+Proof. exact (read_tag_total n s x). Qed.
+
+(* ... for n >= 2^32-4 the uint32 addition tagSize+4 wraps to 0..3: with that many bytes
+   available the slice p[0:len(p)-4] panics, otherwise the stream's error is returned ... *)
+Theorem c09_readtag_wrap n s d t : 4294967292 <= n < 4294967296 -> flat s = (d, t) ->
+  (u32 (n + 4) <= lenN d -> read_tag n s = Panic 12) /\
+  (lenN d < u32 (n + 4) -> read_tag n s = Err t).
+Proof. exact (read_tag_wrap n s d t). Qed.
+
+(* ... and ReadTagHeader never returns such a size: it is below 2^24 *)
+Theorem c09_header_size_24bit s ty sz ts s' : wf_stream s ->
+  read_tag_header s = Ok ((ty, sz, ts), s') -> sz < 16777216 /\ wf_stream s'.
+Proof. exact (read_tag_header_size s ty sz ts s'). Qed.
+
+(* non-vacuity: a two-tag file with a timestamp above 2^24 and an empty body, read in
+   segments of different sizes, the second reader ending with a fault *)
+Example c09_roundtrip_example :
+  let tags := [mk_tag 9 4294967295 [1; 2; 3]; mk_tag 8 16777216 []] in
+  Forall wf_tag tags /\
+  demux 3 (mk_stream (mux true false tags) [1] (-1) (-1)) = Ok ((1, true, false), tags, (0, eEOF)) /\
+  demux 3 (mk_stream (mux true false tags) [7; 2] (-1) 0) = Ok ((1, true, false), tags, (0, 10)).
+Proof.
+  cbv zeta. split; [|split; vm_compute; reflexivity].
+  repeat constructor; vm_compute; reflexivity.
+Qed.
+
+Example c09_readtag_wrap_example :
+  read_tag 4294967295 [Data [1; 2; 3; 4]] = Panic 12 /\ read_tag 4294967291 [Data [1; 2; 3; 4]] = Err eEOF.
+Proof. split; vm_compute; reflexivity. Qed.
+
+Print Assumptions c09_roundtrip.
+Print Assumptions c09_roundtrip_trailing.
+Print Assumptions c09_layout.
+Print Assumptions c09_spec_read.
+Print Assumptions c09_segmentation.
+Print Assumptions c09_mux_bytes.
+Print Assumptions flv_demux_total.
+Print Assumptions c09_demux_returns.
+Print Assumptions c09_readtag_total.
+Print Assumptions c09_readtag_wrap.
+Print Assumptions c09_header_size_24bit.
+Print Assumptions c09_roundtrip_example.
+Print Assumptions c09_readtag_wrap_example.
